@@ -219,6 +219,9 @@ def _finish_path(h, E, st, kind, sig, err, tb, validate_every, npaths):
 
 def _confirm(h, E, st, label, vals):
     """a sat answer is only a candidate: replay concretely on the real code"""
+    if any(c['label'] == label for c in st['cex']):
+        st['more_cex'] = st.get('more_cex', 0) + 1      # same obligation already confirmed in this job: do not pay again
+        return
     tried = []
     cands = [vals] if vals is not None else []
     neg = E._cex_neg.get(label) if hasattr(E, '_cex_neg') else None
